@@ -543,6 +543,43 @@ def _getattr_const(fn):
     return t.n
 
 
+def _bool_valued(e):
+    return isinstance(e, ast.Compare) or (isinstance(e, ast.UnaryOp) and isinstance(e.op, ast.Not)) or (
+        isinstance(e, ast.Call) and isinstance(e.func, ast.Name) and e.func.id in ("isinstance", "issubclass", "callable", "hasattr")) or (
+        isinstance(e, ast.Constant) and isinstance(e.value, bool))
+
+
+def _lower_bool_return(fn):
+    """`return T and REST` with a bool-valued first operand T (a comparison, `not ..`, isinstance(..)) is
+    `if T: return REST` / `return False`; `return T or REST` is `if T: return True` / `return REST` (T's value is exactly
+    True/False, so nothing but the control flow is spelled differently)."""
+    n_done = 0
+    for node in ast.walk(fn):
+        for fld in ("body", "orelse", "finalbody"):
+            body = getattr(node, fld, None)
+            if not isinstance(body, list):
+                continue
+            i = 0
+            while i < len(body):
+                st = body[i]
+                if isinstance(st, ast.Return) and isinstance(st.value, ast.BoolOp) and len(st.value.values) >= 2 and \
+                        _bool_valued(st.value.values[0]):
+                    first, rest = st.value.values[0], st.value.values[1:]
+                    restv = rest[0] if len(rest) == 1 else ast.BoolOp(op=st.value.op, values=rest)
+                    if isinstance(st.value.op, ast.And):
+                        new = [ast.If(test=first, body=[ast.Return(value=restv)], orelse=[]), ast.Return(value=ast.Constant(value=False))]
+                    else:
+                        new = [ast.If(test=first, body=[ast.Return(value=ast.Constant(value=True))], orelse=[]), ast.Return(value=restv)]
+                    for x in new:
+                        ast.copy_location(x, st)
+                        ast.fix_missing_locations(x)
+                    body[i:i + 1] = new
+                    n_done += 1
+                    continue      # the inner return may lower again
+                i += 1
+    return n_done
+
+
 def _with_suppress(fn):
     """`with contextlib.suppress(E1, E2): BODY` is `try: BODY except (E1, E2): pass` (the documented equivalence; only for the
     single-item form without `as`). Returns the number of rewrites."""
@@ -695,6 +732,7 @@ class Repo:
             n += TI.normalise_function(f.node, kl.get(q, set()))
             n += _with_from_acquire(f.node)
             n += _with_suppress(f.node)
+            n += _lower_bool_return(f.node)
             n += _getattr_const(f.node)
             n += _copy_propagate(f.node)
             n += _merge_destructuring(f.node)
